@@ -1,5 +1,6 @@
 import AggkitModel.Proofs.ReorgSync
 import AggkitModel.Generated.CertFacts
+import AggkitModel.Generated.SyncFacts
 /-
 C06 — reorgs of processed blocks are detected; the node converges to the canonical chain.
 Property theorems only. Quantifiers: every chain history (new blocks, reorgs at any depth above the finalized block, new
@@ -248,6 +249,13 @@ example : (run {} [.blk 1, .blk 1, .blk 1, .fin 1, .stepA 3, .reorg 2, .blk 2, .
     tracked range is dropped only after the subscriber has acknowledged the rewind (regenerated from /repo on every run) -/
 theorem C06_code_facts :
     Gen.CertFacts.reorgSteps = ["insertReorgEvent", "notifySubscriber", "removeTrackedBlockRange", "removeRange"] := by decide
+
+/-- the driver's side of the same contract (`stepOnce`, `detectLoop`): a non-finalized block is tracked BEFORE it is
+    processed; on a reorg the downloader is stopped, the store rewound, and only then the detector is acknowledged -/
+theorem C06_driver_code_facts :
+    Gen.SyncFacts.newBlockSteps = ["AddBlockToTrack", "ProcessBlock"] ∧
+    Gen.SyncFacts.trackCond = ["!b.IsFinalizedBlock"] ∧
+    Gen.SyncFacts.handleReorgSteps = ["cancel", "Reorg", "send:d.reorgSub.ReorgProcessed"] := by decide
 
 /-! ### F5 — the statement at full strength (any interleaving of detector and drivers) is FALSE of the code -/
 
